@@ -162,6 +162,7 @@ func main() {
 			}
 		}
 	}
+	run.Cov["style_values_through_function_forms"] = styleLazyForms(run)
 	run.Cov["programs_enumerated"] = len(progs)
 	run.Cov["programs_accepted"] = len(acc)
 	run.Cov["programs_rejected_by_templ"] = rejected
